@@ -81,9 +81,9 @@ def obs_event(e):
     return (e.timestamp, e.data, tuple(e.values), e.tid, e.debugid, e.eventid, e.func_qualifier)
 
 
-def judge(blob, threads, recs, kseq, cpu):
+def judge(blob, threads, recs, kseq, cpu, parser=None):
     bad = []
-    p = KdBufParser({99: 1}, {1: 'stale'})
+    p = parser if parser is not None else KdBufParser({99: 1}, {1: 'stale'})
     out = []
     err = None
     tables_at_first = None
@@ -180,7 +180,8 @@ class C03(Check):
             'included) x both chunk-size conventions. Sub-space "meta": all sequences of <=3 (quick) / <=4 (thorough) '
             'metadata/log blocks over 7 kinds (dyld modules, trace codes, processes, kexts, images, log events, unknown tag) '
             'with occurrence-numbered payloads, the string index placed at every position, x thread maps (4) x gap bytes after '
-            'MORE_EVENTS (4). Oracle: events all/in order/== independent decode/before any log; tables after the thread-map '
+            'MORE_EVENTS (4). Sub-space "long": 64/513/1500 records in 1..3 chunks. Sub-space "reuse": ONE parser object parses '
+            'two dumps in turn (6 x 6 block sequences x 3 map pairs); the second parse must leave the second dump\'s metadata only. Oracle: events all/in order/== independent decode/before any log; tables after the thread-map '
             'chunk and after logs; list-valued sections concatenated in file order; scalar sections equal one of their '
             'payloads; logs in order with strings resolved. non-trivial = >=2 chunks or >=2 blocks. states = distinct '
             '(tables, metadata) end states; transitions = parse() generator steps.')
@@ -200,6 +201,8 @@ class C03(Check):
         kseqs = list(seqs(KINDS, L))
         for ch in chunked(kseqs, 48):
             out.append(('meta', ch))
+        out.append(('long',))
+        out.append(('reuse',))
         return out
 
     def run_shard(self, desc, acc):
@@ -212,6 +215,38 @@ class C03(Check):
                             for with8 in (True, False):
                                 self._one(acc, dict(DEFAULT, cpu_len=cpu_len, f1=f1, f2=f2, nrec=m, comp=comp, with8=with8,
                                                     kseq=('codes',)), nontrivial=k >= 2)
+        elif desc[0] == 'long':
+            for n in (64, 513, 1500):
+                recs = [B.rec(1000 + i, (i, i * 3, 7, 9), 1 + i % 3, 0x040c0004 | (i % 4)) for i in range(n)]
+                for comp in ((n,), (1, n - 1), (n // 2, 0, n - n // 2), (n - 1, 1)):
+                    chunks, i = [], 0
+                    for c in comp:
+                        chunks.append(recs[i:i + c])
+                        i += c
+                    blob = B.v3(THREADMAPS[0], chunks, [blk('codes', 0)])
+                    bad = judge(blob, THREADMAPS[0], recs, ['codes'], None)
+                    acc.case(nontrivial=True, transitions=n + 1, state=h64(('long', n, comp)), outcome=h64(('long', n, comp)))
+                    for sig, detail in bad:
+                        acc.violation(sig + ':long-dump', {'kind': 'long', 'n': n, 'comp': list(comp)}, detail)
+        elif desc[0] == 'reuse':
+            # ONE KdBufParser object parses two different dumps one after the other: after the second parse its metadata and
+            # tables are those of the second dump only
+            seqs2 = [('kexts', 'codes', 'dyld'), ('procs', 'images'), (), ('logs', 'kexts'), ('codes',), ('dyld', 'dyld', 'kexts')]
+            for k1 in seqs2:
+                for k2 in seqs2:
+                    for tm1, tm2 in ((0, 1), (3, 0), (1, 3)):
+                        p = KdBufParser({}, {})
+                        blob1, th1, recs1, ks1, cpu1 = make(**dict(DEFAULT, tmi=tm1, kseq=k1, nrec=2, comp=(2,)))
+                        blob2, th2, recs2, ks2, cpu2 = make(**dict(DEFAULT, tmi=tm2, kseq=k2, nrec=3, comp=(1, 2), cpu_len=3))
+                        bad = []
+                        try:
+                            list(p.parse(io.BytesIO(blob1)))
+                            bad = judge(blob2, th2, recs2, ks2, cpu2, parser=p)
+                        except Exception as ex:
+                            bad = [('v3-parse-raised', {'err': repr(ex)[:200]})]
+                        acc.case(nontrivial=True, transitions=7, state=h64(('reuse', k2, tm2)), outcome=h64(('reuse', k1, k2)))
+                        for sig, detail in bad:
+                            acc.violation(sig + ':parser-reused', {'kind': 'reuse', 'k1': list(k1), 'k2': list(k2), 'tm': [tm1, tm2]}, detail)
         else:
             for kseq in desc[1]:
                 nlog = 1 + len(kseq) if 'logs' in kseq else 1
@@ -236,6 +271,11 @@ class C03(Check):
             acc.sample({k: (list(v) if isinstance(v, tuple) else v) for k, v in params.items()})
 
     def replay(self, case):
+        if case.get('kind') in ('long', 'reuse'):
+            from mc.run import Acc
+            acc = Acc()
+            self.run_shard((case['kind'],), acc)
+            return [(sig, v['cases'][0][1]) for sig, v in acc.violations.items()]
         params = dict(case['params'])
         params['comp'] = tuple(params['comp'])
         params['kseq'] = tuple(params['kseq'])
